@@ -39,14 +39,15 @@ func (round *round2) Start() *tss.Error {
 	// check consistency of SSID
 	r1msg := round.temp.dgRound1Messages[0].Content().(*DGRound1Message)
 	SSID := r1msg.UnmarshalSSID()
-	for j, Pj := range round.OldParties().IDs() {
-		if j == 0 || j == i {
+	for j := range round.OldParties().IDs() {
+		if j == 0 {
 			continue
 		}
 		r1msg := round.temp.dgRound1Messages[j].Content().(*DGRound1Message)
 		SSIDj := r1msg.UnmarshalSSID()
 		if !bytes.Equal(SSID, SSIDj) {
-			return round.WrapError(errors.New("ssid mismatch"), Pj)
+			// a new member cannot recompute the ssid, so it cannot tell which of the two old members is wrong
+			return round.WrapError(errors.New("ssid mismatch"))
 		}
 	}
 	round.temp.ssid = SSID
